@@ -1,5 +1,6 @@
 // Leaf-function driver: evaluates small pure functions of /repo on inputs given one per line.
 #include "common.h"
+#include <memory>
 #include "llbuild/BuildSystem/BuildSystem.h"
 #include "llbuild/Basic/ShellUtility.h"
 #include "llvm/ADT/SmallString.h"
@@ -100,6 +101,126 @@ static std::string showKey(const BuildKey& k) {
   }
 }
 
+// ---- re-used BuildValue objects (C15: value_assign) ----
+struct VSpec { int kind; uint64_t sig; std::vector<FileInfo> infos; SV strs; };
+static BuildValue mkv(const VSpec& s) { return makeValue(s.kind, s.sig, s.infos, s.strs); }
+static BuildValue mkdec(const VSpec& s) { auto d = mkv(s).toData(); return BuildValue::fromData(d); }
+// one observation of an object: "<want> <label> <toData hex> | <accessors> | <accessors of fromData(toData)>" ("=" = same)
+static void emitv(std::string& out, const char* want, const char* label, const BuildValue& v) {
+  auto d = v.toData(); BuildValue rd = BuildValue::fromData(d);
+  if (!out.empty()) out += " ## ";
+  std::string sv = showValue(v), sr = showValue(rd);
+  // the single-output accessor and the non-const accessor must agree with what showValue read
+  int k = (int)v.getKind();
+  if (k == 2 || k == 4 || k == 10 || k == 17) {
+    if (v.getNumOutputs() == 1 && !(showFI(v.getOutputInfo()) == showFI(v.getNthOutputInfo(0)))) sv += " !getOutputInfo";
+    BuildValue& m = const_cast<BuildValue&>(v);
+    for (unsigned i = 0; i < v.getNumOutputs(); i++) if (&m.getNthOutputInfo(i) != &v.getNthOutputInfo(i)) sv += " !nonconst-getNthOutputInfo";
+  }
+  out += std::string(want) + " " + label + " " + hex(d.data(), d.size()) + " | " + sv + " | " + (sr == sv ? std::string("=") : sr);
+}
+// an object that has gone through the history h[0..upto): constructed from h[0], then assigned every later value,
+// alternately a freshly made one and one decoded from bytes
+static std::unique_ptr<BuildValue> historyObject(const std::vector<VSpec>& h, size_t upto) {
+  std::unique_ptr<BuildValue> t(new BuildValue(mkv(h[0])));
+  for (size_t j = 1; j < upto; j++) { if (j & 1) *t = mkv(h[j]); else *t = mkdec(h[j]); }
+  return t;
+}
+static std::string valueAssign(const std::vector<VSpec>& h, bool all) {
+  size_t n = h.size(); const VSpec& N = h[n - 1]; const VSpec& O = h[n - 2];
+  std::string out;
+  { BuildValue f = mkv(N); emitv(out, "N", "fresh", f); }
+  { BuildValue f = mkv(O); emitv(out, "O", "fresh", f); }
+  { auto t = historyObject(h, n - 1); emitv(out, "O", "hist", *t); }
+  // move-assignment of a fresh value / of a copy / of a decoded value into the object holding the old value
+  { auto t = historyObject(h, n - 1); *t = mkv(N); emitv(out, "N", "moveassign", *t); }
+  { auto t = historyObject(h, n - 1); BuildValue src = mkv(N); *t = BuildValue(src);
+    emitv(out, "N", "copyassign", *t); emitv(out, "N", "copyassign-source", src); }
+  { auto t = historyObject(h, n - 1); *t = mkdec(N); emitv(out, "N", "assign-decoded", *t); }
+  // the object holding the old value was itself decoded from bytes
+  { BuildValue d = mkdec(O); d = mkv(N); emitv(out, "N", "decoded-then-assigned", d); }
+  { BuildValue d = mkdec(O); d = mkdec(N); emitv(out, "N", "decoded-then-assigned-decoded", d);
+    BuildValue e = mkv(O); e = std::move(d); emitv(out, "N", "decoded-moved-on", e); }
+  // a value whose output infos are written in place through the non-const accessor (over an object with a history)
+  if ((N.kind == 2 || N.kind == 4 || N.kind == 10 || N.kind == 17) && !N.infos.empty()) {
+    VSpec scr = N; for (auto& fi : scr.infos) memset(&fi, 0x5A, sizeof(fi));
+    auto t = historyObject(h, n - 1); *t = mkv(scr);
+    for (unsigned i = 0; i < t->getNumOutputs(); i++) t->getNthOutputInfo(i) = N.infos[i];
+    emitv(out, "N", "infos-written-in-place", *t);
+  }
+  if (!all) return out;     // value_assign_basic: the steps above only (asked again when the full set crashed)
+  // moved-from objects that are given a new value (moved from by construction / by assignment)
+  { auto t = historyObject(h, n - 1); BuildValue sink(std::move(*t)); *t = mkv(N);
+    emitv(out, "N", "movedfrom-reused", *t); emitv(out, "O", "moveconstructed-sink", sink); }
+  { auto t = historyObject(h, n - 1); BuildValue sink = mkv(N); sink = std::move(*t); *t = mkdec(N);
+    emitv(out, "N", "movedfrom2-reused", *t); emitv(out, "O", "moveassigned-sink", sink); }
+  // self move-assignment
+  { auto t = historyObject(h, n - 1); *t = mkv(N); BuildValue& r = *t; *t = std::move(r); emitv(out, "N", "self-moveassign", *t); }
+  // the three-move swap
+  { auto t = historyObject(h, n - 1); BuildValue b = mkv(N); BuildValue tmp(std::move(*t)); *t = std::move(b); b = std::move(tmp);
+    emitv(out, "N", "swap-a", *t); emitv(out, "O", "swap-b", b); }
+  // constructing from an object that was assigned to
+  { auto t = historyObject(h, n - 1); *t = mkv(N); BuildValue cp(*t); emitv(out, "N", "copy-of-assigned", cp);
+    emitv(out, "N", "assigned-after-copy", *t); BuildValue mv(std::move(*t)); emitv(out, "N", "move-of-assigned", mv); }
+  // and back again
+  { auto t = historyObject(h, n - 1); *t = mkv(N); *t = mkv(O); emitv(out, "O", "assigned-back", *t); }
+  return out;
+}
+
+// ---- every accessor of a decoded key, without trusting the sizes it computes (C15: key_acc) ----
+// a StringRef returned by an accessor is printed only if it lies inside the key's own bytes; else "OOR:<size>"
+static bool insideKey(const BuildKey& k, StringRef r) {
+  const char* b = k.getKeyData().data(); size_t n = k.getKeyData().size();
+  uintptr_t lo = (uintptr_t)b, hi = lo + n, p = (uintptr_t)r.data();
+  return r.size() <= n && p >= lo && p <= hi && r.size() <= hi - p;
+}
+static std::string safeRef(const BuildKey& k, StringRef r) {
+  if (!insideKey(k, r)) return "OOR:" + std::to_string((unsigned long long)r.size());
+  return hex(std::string(r.data(), r.size()));
+}
+// "<kind> <name> <data|-> <filters|.> <raw filter bytes|->"
+static std::string safeShowKey(const BuildKey& k) {
+  std::string r = std::to_string((int)k.getKind()) + " ";
+  auto filters = [&]() -> std::string {
+    StringRef raw = k.getContentExclusionPatterns();
+    if (!insideKey(k, raw)) return "OOR OOR:" + std::to_string((unsigned long long)raw.size());
+    // the string list inside must itself fit: u64 size + that many bytes
+    if (raw.size() < 8) return "SHORT " + hex(std::string(raw.data(), raw.size()));
+    uint64_t sz; memcpy(&sz, raw.data(), 8);
+    if (sz != raw.size() - 8) return "BADSIZE:" + std::to_string((unsigned long long)sz) + " " + hex(std::string(raw.data(), raw.size()));
+    SV l; basic::StringList sl = k.getContentExclusionPatternsAsStringList(); for (auto x : sl.getValues()) l.push_back(x.str());
+    return enlist(l) + " " + hex(std::string(raw.data(), raw.size()));
+  };
+  switch (k.getKind()) {
+  case BuildKey::Kind::Command: return r + safeRef(k, k.getCommandName()) + " - . -";
+  case BuildKey::Kind::CustomTask: return r + safeRef(k, k.getCustomTaskName()) + " " + safeRef(k, k.getCustomTaskData()) + " . -";
+  case BuildKey::Kind::DirectoryContents: return r + safeRef(k, k.getDirectoryPath()) + " - . -";
+  case BuildKey::Kind::FilteredDirectoryContents: return r + safeRef(k, k.getFilteredDirectoryPath()) + " - " + filters();
+  case BuildKey::Kind::DirectoryTreeSignature: return r + safeRef(k, k.getDirectoryTreeSignaturePath()) + " - " + filters();
+  case BuildKey::Kind::DirectoryTreeStructureSignature: return r + safeRef(k, k.getFilteredDirectoryPath()) + " - " + filters();
+  case BuildKey::Kind::Node: return r + safeRef(k, k.getNodeName()) + " - . -";
+  case BuildKey::Kind::Stat: return r + safeRef(k, k.getStatName()) + " - . -";
+  case BuildKey::Kind::Target: return r + safeRef(k, k.getTargetName()) + " - . -";
+  default: return r + "- - . -";
+  }
+}
+// key made by its factory; the same key decoded from its bytes; a copy of that; a key assigned over another key
+static std::string keyAcc(int kind, const std::string& name, const std::string& data, const SV& filters) {
+  BuildKey k = makeKey(kind, name, data, filters);
+  std::string bytes = k.toData().str();
+  BuildKey d = BuildKey::fromData(core::KeyType(bytes));
+  BuildKey cp(d);
+  BuildKey as = BuildKey::makeCustomTask(std::string(200, 'x'), "old-data"); as = d;
+  BuildKey mv = BuildKey::makeTarget("old"); mv = std::move(cp);
+  // answer: "<bytes> | <factory-made> | <decoded> | <copy-assigned> | <move-assigned> | <their toData>"; "=" = same as the field before
+  std::string r = hex(bytes), prev = safeShowKey(k);
+  r += " | " + prev;
+  for (const BuildKey* x : {&d, &as, &mv}) { std::string s = safeShowKey(*x); r += " | " + (s == prev ? std::string("=") : s); prev = s; }
+  r += " |";
+  for (const BuildKey* x : {&d, &as, &mv}) { std::string b = x->toData().str(); r += " " + (b == bytes ? std::string("=") : hex(b)); }
+  return r;
+}
+
 static std::vector<FileInfo> g_slots;
 static std::string handle(const SV& t) {
   const std::string& c = t[0];
@@ -140,6 +261,18 @@ static std::string handle(const SV& t) {
     if (v2.toData() == d) return "MISMATCH collision: a value differing in the last output encodes identically";
     return "OK " + std::to_string(n) + " " + std::to_string(d.size());
   }
+  // value_assign (<kind> <sig> <infos> <strs>)x n, n >= 2: an object that held the first n-1 values in turn receives the
+  // last one by move-assignment / assignment of a copy / of a decoded value, after having been moved from, by self
+  // assignment, by swapping; every resulting object is shown as bytes + accessors + accessors after decode
+  if ((c == "value_assign" || c == "value_assign_basic") && t.size() >= 9 && (t.size() - 1) % 4 == 0) {
+    std::vector<VSpec> h;
+    for (size_t i = 1; i + 3 < t.size(); i += 4)
+      h.push_back(VSpec{atoi(t[i].c_str()), strtoull(t[i + 1].c_str(), 0, 10), parseFIs(t[i + 2]), unlist(t[i + 3])});
+    return valueAssign(h, c == "value_assign");
+  }
+  // key_acc <kind> <name> <data> <filters>: encoding + every accessor of the key as made, decoded, copy- and move-assigned
+  if (c == "key_acc" && t.size() == 5)
+    return keyAcc(atoi(t[1].c_str()), unhex(t[2]), unhex(t[3]), unlist(t[4]));
   if (c == "value_dec" && t.size() == 2) {
     std::string b = unhex(t[1]); core::ValueType d(b.begin(), b.end());
     BuildValue v = BuildValue::fromData(d);
